@@ -16,6 +16,7 @@ type Env struct {
 	pkg     *types.Package
 	vars    map[string]Val
 	snap    map[string]string // heap snapshot to read from (nil = current heaps)
+	havocNew bool             // postcondition of a callee without a modifies clause: heaps first touched here are havocked, not initial
 	doneSym map[string]string // done(ctx) in a callee's postcondition at a call site: ctx term -> fresh boolean
 	oldSnap map[string]string // snapshot used by old(...)
 	hasOld  bool
@@ -68,6 +69,13 @@ func (env *Env) heap(name, sort string) string {
 		// heap did not exist when the snapshot was taken: its value then was its initial symbol
 		env.st.heap(name, sort)
 		return env.st.init[name]
+	}
+	if env.havocNew && env.st != nil {
+		if _, ok := env.st.heaps[name]; !ok {
+			// the callee may have changed this heap too (no modifies clause); its symbol is created only now
+			env.st.heap(name, sort)
+			env.st.havocHeap(name)
+		}
 	}
 	return env.st.heap(name, sort)
 }
